@@ -367,8 +367,8 @@ def plan_C03(w):
     run_mc(w, [("hg2o", "MC_hg2o.cfg", 6, 600)] if q else [("hg2ot", "MC_hg2ot.cfg", 12, 1500)])
     # random pairwise-gossip DAGs, screened for a difference between per-event and
     # once-at-the-end insertion (cache = number of candidates per trace)
-    rk = [("ordR", dict(traces=2, steps=75, sched="randdag", cache=250))] if q else \
-         [("ordR%d" % i, dict(traces=3, steps=75 + 10 * i, sched="randdag", cache=500, arg="thorough")) for i in range(3)]
+    rk = [("ordR", dict(traces=3, steps=75, sched="randdag", cache=200))] if q else \
+         [("ordR%d" % i, dict(traces=6, steps=75 + 10 * i, sched="randdag", cache=500, arg="thorough")) for i in range(3)]
     if q:
         kinds = [("ordA", dict(traces=4, n=0, steps=70)), ("ordB", dict(traces=2, n=4, steps=110)), ("ordF", dict(traces=3, sched="funky"))]
     else:
